@@ -432,19 +432,22 @@ struct Interp {
     }
 };
 
-// reference: apply mutations in write-mutex acquisition order
-void reference_check(const Prog& p, const std::vector<int>& final_contents)
+// reference: the effective mutations applied one at a time, in writer-lock acquisition order when
+// every one of them acquired the lock (the usual case), otherwise in ANY order that respects each
+// thread's own order (brute force) - the statement only asks for "some sequential execution".
+struct RefVerdict {
+    bool ok;
+    char msg[400];
+};
+static RefVerdict check_order(const Prog& p, const std::vector<MutRec>& ms, const std::vector<int>& final_contents)
 {
-    // sort by acquisition sequence
-    std::vector<MutRec> ms(g_muts, g_muts + g_nmuts);
-    std::sort(ms.begin(), ms.end(), [](const MutRec& a, const MutRec& b) { return a.acq_seq < b.acq_seq; });
-    for (size_t i = 1; i < ms.size(); i++)
-        MC_CHECK(ms[i].acq_seq != ms[i - 1].acq_seq, "unserialised-writers",
-                 "two list mutations did not each acquire the writer lock");
+    RefVerdict v;
+    v.ok = true;
+    v.msg[0] = 0;
     std::list<int> ref, all;  // `all` ignores erases: position order of everything ever inserted
-    for (int v = 1; v <= p.prefill; v++) {
-        ref.push_back(v);
-        all.push_back(v);
+    for (int x = 1; x <= p.prefill; x++) {
+        ref.push_back(x);
+        all.push_back(x);
     }
     for (auto& m : ms) {
         if (m.kind == PUSH_F || m.kind == EMPL_F) {
@@ -460,15 +463,16 @@ void reference_check(const Prog& p, const std::vector<int>& final_contents)
     std::vector<int> refv(ref.begin(), ref.end());
     if (refv != final_contents) {
         std::string a, b;
-        for (int v : refv) a += std::to_string(v) + " ";
-        for (int v : final_contents) b += std::to_string(v) + " ";
-        fail("final-contents", "final list contents [%s] differ from the sequential execution in writer-lock order [%s]",
-             b.c_str(), a.c_str());
+        for (int x : refv) a += std::to_string(x) + " ";
+        for (int x : final_contents) b += std::to_string(x) + " ";
+        v.ok = false;
+        snprintf(v.msg, sizeof v.msg, "final-contents|final list contents [%s] differ from the sequential execution [%s]", b.c_str(), a.c_str());
+        return v;
     }
     std::vector<int> order(all.begin(), all.end());
-    auto rank = [&](int v) {
+    auto rank = [&](int x) {
         for (size_t i = 0; i < order.size(); i++)
-            if (order[i] == v) return (int)i;
+            if (order[i] == x) return (int)i;
         return -1;
     };
     for (int t = 0; t < g_ntravs; t++) {
@@ -476,30 +480,89 @@ void reference_check(const Prog& p, const std::vector<int>& final_contents)
         int last = -1;
         for (int i = 0; i < tr.n; i++) {
             int r = rank(tr.vals[i]);
-            MC_CHECK(r >= 0, "phantom-value", "traversal of fiber %d returned value %d that was never inserted", tr.fiber,
-                     tr.vals[i]);
-            MC_CHECK(r > last, "order", "traversal of fiber %d returned value %d out of list order or twice", tr.fiber,
-                     tr.vals[i]);
+            if (r < 0) {
+                v.ok = false;
+                snprintf(v.msg, sizeof v.msg, "phantom-value|traversal of fiber %d returned value %d that was never inserted", tr.fiber, tr.vals[i]);
+                return v;
+            }
+            if (r <= last) {
+                v.ok = false;
+                snprintf(v.msg, sizeof v.msg, "order|traversal of fiber %d returned value %d out of list order or twice", tr.fiber, tr.vals[i]);
+                return v;
+            }
             last = r;
         }
         // stable values must be seen: inserted (returned) before the traversal began,
         // and not erased, or erase invoked only after the traversal ended
-        for (int v : order) {
-            bool inserted_before = v <= p.prefill;
+        for (int x : order) {
+            bool inserted_before = x <= p.prefill;
             for (auto& m : ms)
-                if (m.kind != ERASE_CUR && m.value == v && m.ret < tr.inv) inserted_before = true;
+                if (m.kind != ERASE_CUR && m.value == x && m.ret < tr.inv) inserted_before = true;
             if (!inserted_before) continue;
             bool erase_possible = false;
-            for (auto& m : ms)
-                if (m.kind == ERASE_CUR && m.value == v && m.inv < tr.ret) erase_possible = true;
+            for (int k = 0; k < g_nmuts; k++)
+                if (g_muts[k].kind == ERASE_CUR && g_muts[k].value == x && g_muts[k].inv < tr.ret) erase_possible = true;
             if (erase_possible) continue;
             bool seen = false;
             for (int i = 0; i < tr.n; i++)
-                if (tr.vals[i] == v) seen = true;
-            MC_CHECK(seen, "skipped-stable", "traversal of fiber %d skipped value %d which was in the list for its whole duration",
-                     tr.fiber, v);
+                if (tr.vals[i] == x) seen = true;
+            if (!seen) {
+                v.ok = false;
+                snprintf(v.msg, sizeof v.msg, "skipped-stable|traversal of fiber %d skipped value %d which was in the list for its whole duration", tr.fiber, x);
+                return v;
+            }
         }
     }
+    return v;
+}
+
+void reference_check(const Prog& p, const std::vector<int>& final_contents)
+{
+    // effective mutations only: erasing an already erased element is a no-op and needs no lock
+    std::vector<MutRec> ms;
+    for (int i = 0; i < g_nmuts; i++)
+        if (!g_muts[i].noop) ms.push_back(g_muts[i]);
+    // an erase of a value some other erase already removed (two writers, same element) is a no-op too
+    {
+        std::vector<MutRec> eff;
+        std::sort(ms.begin(), ms.end(), [](const MutRec& a, const MutRec& b) { return a.acq_seq < b.acq_seq; });
+        for (auto& m : ms) {
+            bool dup = false;
+            if (m.kind == ERASE_CUR)
+                for (auto& e : eff)
+                    if (e.kind == ERASE_CUR && e.value == m.value) dup = true;
+            if (!dup) eff.push_back(m);
+        }
+        ms = eff;
+    }
+    bool distinct = true;
+    for (size_t i = 1; i < ms.size(); i++)
+        if (ms[i].acq_seq == ms[i - 1].acq_seq) distinct = false;
+    RefVerdict v = check_order(p, ms, final_contents);
+    if (v.ok) return;
+    if (distinct && ms.size() > 0) {
+        // lock order is the order: report
+    } else {
+        // no unique lock order: any order respecting per-thread program order (by invocation stamp) will do
+        std::vector<int> perm(ms.size());
+        for (size_t i = 0; i < perm.size(); i++) perm[i] = (int)i;
+        std::sort(perm.begin(), perm.end());
+        do {
+            bool respects = true;
+            // per-thread order = order of invocation stamps among mutations with overlapping-free intervals
+            for (size_t a = 0; a < perm.size() && respects; a++)
+                for (size_t b = a + 1; b < perm.size(); b++)
+                    if (ms[perm[b]].ret < ms[perm[a]].inv) respects = false;  // b finished before a began: cannot come after
+            if (!respects) continue;
+            std::vector<MutRec> cand;
+            for (int i : perm) cand.push_back(ms[i]);
+            RefVerdict c = check_order(p, cand, final_contents);
+            if (c.ok) return;
+        } while (std::next_permutation(perm.begin(), perm.end()));
+    }
+    char* bar = strchr(v.msg, '|');
+    *bar = 0;
+    fail(v.msg, "%s", bar + 1);
 }
 
 void body(const Prog& p)
@@ -713,6 +776,10 @@ void make_items(const Options& o, std::vector<Item>& items)
     add(2, {reaper(2), eraser(0)}, 3, 4);
     add(2, {pusher({{PUSH_F, 10}}), eraser(0), reaper(1)}, 2, 3);
     add(2, {traverser(true), eraser(1, true), reaper(1)}, 2, 3);
+    // two writers erasing the same element: it must still be destroyed exactly once
+    add(2, {eraser(0), eraser(0)}, 3, 4);
+    add(2, {eraser(1), eraser(1), reaper(1)}, 2, 3);
+    add(1, {eraser(0, true), eraser(0)}, 3, 4);
     if (thorough) {
         add(3, {pauser(2), eraser(1), reaper(1), reaper(1)}, 2, 2);
         add(2, {pauser(1), pauser(1), erase_all(2), reaper(1)}, 2, 2);
@@ -732,6 +799,7 @@ void make_items(const Options& o, std::vector<Item>& items)
     add(2, {pauser(1), eraser(1), reaper(2)}, 2, 3);
     add(2, {pauser(1), pauser(1), eraser(0)}, 2, 3);
     add(2, {pauser(1), eraser(0), eraser(1)}, 2, 3);
+    add(2, {pauser(1), eraser(0), eraser(0)}, 2, 3);
     add(2, {pauser(1), eraser(0), pusher({{PUSH_F, 10}})}, 2, 3);
     add(2, {pauser(1), pauser(1), eraser(1), reaper(1)}, 2, 2);
     add(2, {pauser(1), eraser(0), reaper(1), reaper(1)}, 2, 2);
